@@ -609,10 +609,12 @@ impl SimChild {
         what: &'static str,
     ) -> std::sync::MutexGuard<'a, SimProc> {
         let generation = p.generation;
-        // Another parent thread can only exist if this one created it or is itself a helper:
-        // a run executes on a fresh thread, so "created no thread and is the only thread that
-        // ever touched the child" means nobody else can come to the rescue.
-        let alone = crate::seams::threads_created_by_current_thread() == 0
+        // Another parent thread can only exist if the code under test has started one in this
+        // process (in this call, or earlier and kept in a pool) or this thread is itself a helper:
+        // "no simulated thread ever started a thread and this is the only thread that ever
+        // touched the child" means nobody else can come to the rescue.
+        let alone = crate::seams::helper_threads_in_process() == 0
+            && crate::seams::threads_created_by_current_thread() == 0
             && p.parent_threads.len() <= 1
             && p.parent_threads.first() == Some(&std::thread::current().id());
         let deadline = std::time::Instant::now()
